@@ -14,6 +14,7 @@
    arguments; the OCaml driver instantiates them with IEEE doubles, the refutation in C09_Proofs.v
    with rationals plus an absorbing error element. *)
 From Coq Require Import List Arith Bool.
+From DuneV Require Import Params_gen.
 Import ListNotations.
 
 (* ------------------------------------------------------------------------------------------ *)
@@ -393,9 +394,9 @@ Section C09_LU.
   Definition c09_s_lu (throwEarly doPivoting : bool) (n : nat) (A : list (list T)) (b : list T) : c09_res c09_sst :=
     c09_s_loop throwEarly doPivoting n n 0 (c09_s_init n A b).
 
-  (* solve (n >= 4 branch) *)
+  (* solve (n >= 4 branch); the throwEarly argument passed to luDecomposition is re-read from the source: Params_gen.v *)
   Definition c09_s_solve (doPivoting : bool) (n : nat) (A : list (list T)) (b : list T) : c09_res (list T) :=
-    match c09_s_lu true doPivoting n A b with
+    match c09_s_lu c09_param_throw_early_solve doPivoting n A b with
     | C09_FMatrixError st => C09_FMatrixError (c09_srhs st)
     | C09_Ok st => C09_Ok (c09_g_backsolve T sub mul div zero n (c09_sA st) (rev (seq 0 n)) (c09_srhs st))
     end.
@@ -410,7 +411,7 @@ Section C09_LU.
     | i :: cols' => c09_s_unperm n piv cols' (c09_s_unperm_step n M i (nth i piv 0))
     end.
   Definition c09_s_invert (doPivoting : bool) (n : nat) (A : list (list T)) : c09_res (list (list T)) :=
-    match c09_s_lu true doPivoting n A [] with
+    match c09_s_lu c09_param_throw_early_invert doPivoting n A [] with
     | C09_FMatrixError st => C09_FMatrixError (c09_sA st)
     | C09_Ok st => C09_Ok (c09_s_unperm n (c09_spiv st) (rev (seq 0 n))
                              (c09_g_invert_tri T sub mul div zero one n (c09_sA st)))
@@ -420,7 +421,7 @@ Section C09_LU.
          luDecomposition(A, ElimDet(det), nonsingularLanes, false, doPivoting);
          for i: det *= A[i][i];   det = cond(nonsingularLanes, det, 0);  return det *)
   Definition c09_s_det (doPivoting : bool) (n : nat) (A : list (list T)) : T :=
-    match c09_s_lu false doPivoting n A [] with
+    match c09_s_lu c09_param_throw_early_det doPivoting n A [] with
     | C09_FMatrixError st => zero      (* unreachable: throwEarly = false never throws *)
     | C09_Ok st =>
         let d := c09_g_detprod T mul zero n (c09_sA st) (c09_ssign st) in
@@ -526,7 +527,7 @@ Section C09_LU.
     c09_v_loop throwEarly doPivoting n n 0 (c09_v_init n A b).
 
   Definition c09_v_solve (doPivoting : bool) (n : nat) (A : list (list (list T))) (b : list (list T)) : c09_res (list (list T)) :=
-    match c09_v_lu true doPivoting n A b with
+    match c09_v_lu c09_param_throw_early_solve doPivoting n A b with
     | C09_FMatrixError st => C09_FMatrixError (c09_vrhs st)
     | C09_Ok st => C09_Ok (c09_g_backsolve (list T) c09_vsub c09_vmul c09_vdiv c09_vzero n (c09_vA st) (rev (seq 0 n)) (c09_vrhs st))
     end.
@@ -544,14 +545,14 @@ Section C09_LU.
     | i :: cols' => c09_v_unperm n piv cols' (c09_v_unperm_step n M i (nth i piv []))
     end.
   Definition c09_v_invert (doPivoting : bool) (n : nat) (A : list (list (list T))) : c09_res (list (list (list T))) :=
-    match c09_v_lu true doPivoting n A [] with
+    match c09_v_lu c09_param_throw_early_invert doPivoting n A [] with
     | C09_FMatrixError st => C09_FMatrixError (c09_vA st)
     | C09_Ok st => C09_Ok (c09_v_unperm n (c09_vpiv st) (rev (seq 0 n))
                              (c09_g_invert_tri (list T) c09_vsub c09_vmul c09_vdiv c09_vzero c09_vone n (c09_vA st)))
     end.
 
   Definition c09_v_det (doPivoting : bool) (n : nat) (A : list (list (list T))) : list T :=
-    match c09_v_lu false doPivoting n A [] with
+    match c09_v_lu c09_param_throw_early_det doPivoting n A [] with
     | C09_FMatrixError st => c09_vzero
     | C09_Ok st =>
         c09_vcond zero (c09_vok st) (c09_g_detprod (list T) c09_vmul c09_vzero n (c09_vA st) (c09_vsign st)) c09_vzero
@@ -629,6 +630,195 @@ Section C09_Norms.
   Definition c09_v_infnorm_before_fix := c09_v_infnorm false.
 End C09_Norms.
 
+(* further products and norms: umv, mmv, usmv, mtv, vector dot product, one_norm (above), two_norm2 / two_norm, frobenius_norm2 /
+   frobenius_norm, DenseVector::infinity_norm in its two HasNaN variants (densematrix.hh / densevector.hh loops) *)
+Section C09_GenericProducts.
+  Variables X R : Type.
+  Variables (xadd xsub xmul : X -> X -> X) (xzero : X).
+  Variables (xabs xabs2 : X -> R).                  (* abs / fvmeta::absreal,  fvmeta::abs2 *)
+  Variables (radd rmul rdiv rmax : R -> R -> R) (rsqrt : R -> R) (rzero rone : R).
+
+  (* for j: acc (+|-)= A[i][j] * x[j] *)
+  Definition c09_g_rowacc_add (row x : list X) (acc : X) : X := fold_left (fun a p => xadd a (xmul (fst p) (snd p))) (combine row x) acc.
+  Definition c09_g_rowacc_sub (row x : list X) (acc : X) : X := fold_left (fun a p => xsub a (xmul (fst p) (snd p))) (combine row x) acc.
+  Definition c09_g_umv (A : list (list X)) (x y : list X) : list X := map (fun p => c09_g_rowacc_add (fst p) x (snd p)) (combine A y).
+  Definition c09_g_mmv (A : list (list X)) (x y : list X) : list X := map (fun p => c09_g_rowacc_sub (fst p) x (snd p)) (combine A y).
+  (* usmv: y[i] += alpha * A[i][j] * x[j] *)
+  Definition c09_g_usmv (alpha : X) (A : list (list X)) (x y : list X) : list X :=
+    map (fun p => fold_left (fun a q => xadd a (xmul (xmul alpha (fst q)) (snd q))) (combine (fst p) x) (snd p)) (combine A y).
+  (* mtv: for i<cols: y[i] = 0; for j<rows: y[i] += A[j][i] * x[j] *)
+  Definition c09_g_mtv (ncols : nat) (A : list (list X)) (x : list X) : list X :=
+    c09_tab ncols (fun i => fold_left (fun a p => xadd a (xmul (nth i (fst p) xzero) (snd p))) (combine A x) xzero).
+  (* DenseVector::operator*: result(0); result += x[i]*y[i] *)
+  Definition c09_g_dot (x y : list X) : X := fold_left (fun a p => xadd a (xmul (fst p) (snd p))) (combine x y) xzero.
+  Definition c09_g_two_norm2 (v : list X) : R := fold_left (fun r e => radd r (xabs2 e)) v rzero.
+  Definition c09_g_two_norm (v : list X) : R := rsqrt (c09_g_two_norm2 v).
+  Definition c09_g_frobenius_norm2 (A : list (list X)) : R := fold_left (fun s row => radd s (c09_g_two_norm2 row)) A rzero.
+  Definition c09_g_frobenius_norm (A : list (list X)) : R := rsqrt (c09_g_frobenius_norm2 A).
+  (* DenseVector::infinity_norm: norm = max(abs(x), norm) [; isNaN += a; return norm * (isNaN / isNaN)] *)
+  Definition c09_g_vec_infnorm (hasNaN : bool) (v : list X) : R :=
+    if hasNaN then
+      let r := fold_left (fun (s : R * R) e => let a := xabs e in (rmax a (fst s), radd (snd s) a)) v (rzero, rone) in
+      rmul (fst r) (rdiv (snd r) (snd r))
+    else fold_left (fun norm e => rmax (xabs e) norm) v rzero.
+End C09_GenericProducts.
+
+Section C09_Products.
+  Variables T U : Type.
+  Variables (add sub mul : T -> T -> T) (zero : T).
+  Variables (absr abs2 : T -> U).
+  Variables (uadd umul udiv : U -> U -> U) (ult : U -> U -> bool) (usqrt : U -> U) (uzero uone : U).
+  Variable W : nat.
+  Notation umax := (c09_umax U ult).
+  Notation nU := (c09_nU T U zero absr).
+  (* scalar numbers *)
+  Definition c09_s_umv := c09_g_umv T add mul.
+  Definition c09_s_mmv := c09_g_mmv T sub mul.
+  Definition c09_s_usmv := c09_g_usmv T add mul.
+  Definition c09_s_mtv := c09_g_mtv T add mul zero.
+  Definition c09_s_dot := c09_g_dot T add mul zero.
+  Definition c09_s_two_norm2 := c09_g_two_norm2 T U abs2 uadd uzero.
+  Definition c09_s_two_norm := c09_g_two_norm T U abs2 uadd usqrt uzero.
+  Definition c09_s_frobenius_norm2 := c09_g_frobenius_norm2 T U abs2 uadd uzero.
+  Definition c09_s_frobenius_norm := c09_g_frobenius_norm T U abs2 uadd usqrt uzero.
+  Definition c09_s_vec_infnorm := c09_g_vec_infnorm T U absr uadd umul udiv umax uzero uone.
+  Definition c09_s_one_norm := c09_g_one_norm T U absr uadd uzero.
+  (* W-lane numbers: the same text with the LoopSIMD operators *)
+  Notation vadd := (c09_vmap2 W zero zero add).
+  Notation vsub := (c09_vmap2 W zero zero sub).
+  Notation vmul := (c09_vmap2 W zero zero mul).
+  Notation vz := (c09_vbcast W zero).
+  Notation wadd := (c09_vmap2 W nU nU uadd).
+  Definition c09_v_umv := c09_g_umv (list T) vadd vmul.
+  Definition c09_v_mmv := c09_g_mmv (list T) vsub vmul.
+  Definition c09_v_usmv := c09_g_usmv (list T) vadd vmul.
+  Definition c09_v_mtv := c09_g_mtv (list T) vadd vmul vz.
+  Definition c09_v_dot := c09_g_dot (list T) vadd vmul vz.
+  Definition c09_v_two_norm2 := c09_g_two_norm2 (list T) (list U) (c09_vmap W zero abs2) wadd (c09_vbcast W uzero).
+  Definition c09_v_two_norm := c09_g_two_norm (list T) (list U) (c09_vmap W zero abs2) wadd (c09_vmap W nU usqrt) (c09_vbcast W uzero).
+  Definition c09_v_frobenius_norm2 := c09_g_frobenius_norm2 (list T) (list U) (c09_vmap W zero abs2) wadd (c09_vbcast W uzero).
+  Definition c09_v_frobenius_norm := c09_g_frobenius_norm (list T) (list U) (c09_vmap W zero abs2) wadd (c09_vmap W nU usqrt) (c09_vbcast W uzero).
+  Definition c09_v_vec_infnorm := c09_g_vec_infnorm (list T) (list U) (c09_vmap W zero absr) wadd (c09_vmap2 W nU nU umul) (c09_vmap2 W nU nU udiv)
+                                     (c09_vmap2 W nU nU umax) (c09_vbcast W uzero) (c09_vbcast W uone).
+  Definition c09_v_one_norm := c09_g_one_norm (list T) (list U) (c09_vmap W zero absr) wadd (c09_vbcast W uzero).
+End C09_Products.
+
+(* ------------------------------------------------------------------------------------------ *)
+(* Part 4.  The closed forms for rows() = 1, 2, 3 of determinant / solve / invert and the dispatch *)
+(* (densematrix.hh; DUNE_FMatrix_WITH_CHECKING not defined: no singularity test in these branches) *)
+(* ------------------------------------------------------------------------------------------ *)
+Section C09_GenericClosed.
+  Variable X : Type.
+  Variables xadd xsub xmul xdiv : X -> X -> X.
+  Variable xneg : X -> X.
+  Variables xzero xone : X.
+  Notation e := (c09_g_get X xzero).
+  Notation v := (c09_g_vget X xzero).
+  Infix "+" := xadd. Infix "-" := xsub. Infix "*" := xmul. Infix "/" := xdiv.
+
+  (* determinant: rows()==1, rows()==2, rows()==3 ("code generated by maple") *)
+  Definition c09_g_det1 (A : list (list X)) : X := (e A 0 0).
+  Definition c09_g_det2 (A : list (list X)) : X := (e A 0 0) * (e A 1 1) - (e A 0 1) * (e A 1 0).
+  Definition c09_g_det3 (A : list (list X)) : X :=
+    let t4 := (e A 0 0) * (e A 1 1) in let t6 := (e A 0 0) * (e A 1 2) in let t8 := (e A 0 1) * (e A 1 0) in
+    let t10 := (e A 0 2) * (e A 1 0) in let t12 := (e A 0 1) * (e A 2 0) in let t14 := (e A 0 2) * (e A 2 0) in
+    t4 * (e A 2 2) - t6 * (e A 2 1) - t8 * (e A 2 2) + t10 * (e A 2 1) + t12 * (e A 1 2) - t14 * (e A 1 1).
+
+  (* solve *)
+  Definition c09_g_solve1 (A : list (list X)) (b : list X) : list X := [ (v b 0) / (e A 0 0) ].
+  Definition c09_g_solve2 (A : list (list X)) (b : list X) : list X :=
+    let detinv := xone / ((e A 0 0) * (e A 1 1) - (e A 0 1) * (e A 1 0)) in
+    [ detinv * ((e A 1 1) * (v b 0) - (e A 0 1) * (v b 1));
+      detinv * ((e A 0 0) * (v b 1) - (e A 1 0) * (v b 0)) ].
+  Definition c09_g_solve3 (A : list (list X)) (b : list X) : list X :=
+    let d := c09_g_det3 A in
+    [ ((v b 0) * (e A 1 1) * (e A 2 2) - (v b 0) * (e A 2 1) * (e A 1 2) - (v b 1) * (e A 0 1) * (e A 2 2) + (v b 1) * (e A 2 1) * (e A 0 2)
+       + (v b 2) * (e A 0 1) * (e A 1 2) - (v b 2) * (e A 1 1) * (e A 0 2)) / d;
+      ((e A 0 0) * (v b 1) * (e A 2 2) - (e A 0 0) * (v b 2) * (e A 1 2) - (e A 1 0) * (v b 0) * (e A 2 2) + (e A 1 0) * (v b 2) * (e A 0 2)
+       + (e A 2 0) * (v b 0) * (e A 1 2) - (e A 2 0) * (v b 1) * (e A 0 2)) / d;
+      ((e A 0 0) * (e A 1 1) * (v b 2) - (e A 0 0) * (e A 2 1) * (v b 1) - (e A 1 0) * (e A 0 1) * (v b 2) + (e A 1 0) * (e A 2 1) * (v b 0)
+       + (e A 2 0) * (e A 0 1) * (v b 1) - (e A 2 0) * (e A 1 1) * (v b 0)) / d ].
+
+  (* invert *)
+  Definition c09_g_invert1 (A : list (list X)) : list (list X) := [[ xone / (e A 0 0) ]].
+  Definition c09_g_invert2 (A : list (list X)) : list (list X) :=
+    let detinv := xone / ((e A 0 0) * (e A 1 1) - (e A 0 1) * (e A 1 0)) in
+    [ [ (e A 1 1) * detinv;        xneg (e A 0 1) * detinv ];
+      [ xneg (e A 1 0) * detinv;   (e A 0 0) * detinv ] ].
+  Definition c09_g_invert3 (A : list (list X)) : list (list X) :=
+    let t4 := (e A 0 0) * (e A 1 1) in let t6 := (e A 0 0) * (e A 1 2) in let t8 := (e A 0 1) * (e A 1 0) in
+    let t10 := (e A 0 2) * (e A 1 0) in let t12 := (e A 0 1) * (e A 2 0) in let t14 := (e A 0 2) * (e A 2 0) in
+    let det := t4 * (e A 2 2) - t6 * (e A 2 1) - t8 * (e A 2 2) + t10 * (e A 2 1) + t12 * (e A 1 2) - t14 * (e A 1 1) in
+    let t17 := xone / det in
+    [ [ ((e A 1 1) * (e A 2 2) - (e A 1 2) * (e A 2 1)) * t17;  xneg ((e A 0 1) * (e A 2 2) - (e A 0 2) * (e A 2 1)) * t17;  ((e A 0 1) * (e A 1 2) - (e A 0 2) * (e A 1 1)) * t17 ];
+      [ xneg ((e A 1 0) * (e A 2 2) - (e A 1 2) * (e A 2 0)) * t17;  ((e A 0 0) * (e A 2 2) - t14) * t17;  xneg (t6 - t10) * t17 ];
+      [ ((e A 1 0) * (e A 2 1) - (e A 1 1) * (e A 2 0)) * t17;  xneg ((e A 0 0) * (e A 2 1) - t12) * t17;  (t4 - t8) * t17 ] ].
+End C09_GenericClosed.
+
+Section C09_Full.
+  Variables T U : Type.
+  Variables add sub mul div : T -> T -> T.
+  Variable neg : T -> T.
+  Variable absr : T -> U.
+  Variable gt : U -> U -> bool.
+  Variable nz : U -> bool.
+  Variables zero one mone : T.
+  Variable W : nat.
+
+  (* DenseMatrix::determinant / solve / invert with the dispatch on rows(): 1, 2, 3 closed form, otherwise the LU *)
+  Definition c09_s_det_full (doPivoting : bool) (n : nat) (A : list (list T)) : T :=
+    match n with
+    | 1 => c09_g_det1 T zero A
+    | 2 => c09_g_det2 T sub mul zero A
+    | 3 => c09_g_det3 T add sub mul zero A
+    | _ => c09_s_det T U sub mul div absr gt nz zero one mone doPivoting n A
+    end.
+  Definition c09_s_solve_full (doPivoting : bool) (n : nat) (A : list (list T)) (b : list T) : c09_res (list T) :=
+    match n with
+    | 1 => C09_Ok (c09_g_solve1 T div zero A b)
+    | 2 => C09_Ok (c09_g_solve2 T sub mul div zero one A b)
+    | 3 => C09_Ok (c09_g_solve3 T add sub mul div zero A b)
+    | _ => c09_s_solve T U sub mul div absr gt nz zero one mone doPivoting n A b
+    end.
+  Definition c09_s_invert_full (doPivoting : bool) (n : nat) (A : list (list T)) : c09_res (list (list T)) :=
+    match n with
+    | 1 => C09_Ok (c09_g_invert1 T div zero one A)
+    | 2 => C09_Ok (c09_g_invert2 T sub mul div neg zero one A)
+    | 3 => C09_Ok (c09_g_invert3 T add sub mul div neg zero one A)
+    | _ => c09_s_invert T U sub mul div absr gt nz zero one mone doPivoting n A
+    end.
+
+  (* the same text instantiated with W-lane numbers *)
+  Notation vadd := (c09_vmap2 W zero zero add).
+  Notation vsub := (c09_vsub T sub zero W).
+  Notation vmul := (c09_vmul T mul zero W).
+  Notation vdiv := (c09_vdiv T div zero W).
+  Notation vneg := (c09_vmap W zero neg).
+  Notation vzero := (c09_vzero T zero W).
+  Notation vone := (c09_vone T one W).
+  Definition c09_v_det_full (doPivoting : bool) (n : nat) (A : list (list (list T))) : list T :=
+    match n with
+    | 1 => c09_g_det1 (list T) vzero A
+    | 2 => c09_g_det2 (list T) vsub vmul vzero A
+    | 3 => c09_g_det3 (list T) vadd vsub vmul vzero A
+    | _ => c09_v_det T U sub mul div absr gt nz zero one mone W doPivoting n A
+    end.
+  Definition c09_v_solve_full (doPivoting : bool) (n : nat) (A : list (list (list T))) (b : list (list T)) : c09_res (list (list T)) :=
+    match n with
+    | 1 => C09_Ok (c09_g_solve1 (list T) vdiv vzero A b)
+    | 2 => C09_Ok (c09_g_solve2 (list T) vsub vmul vdiv vzero vone A b)
+    | 3 => C09_Ok (c09_g_solve3 (list T) vadd vsub vmul vdiv vzero A b)
+    | _ => c09_v_solve T U sub mul div absr gt nz zero one mone W doPivoting n A b
+    end.
+  Definition c09_v_invert_full (doPivoting : bool) (n : nat) (A : list (list (list T))) : c09_res (list (list (list T))) :=
+    match n with
+    | 1 => C09_Ok (c09_g_invert1 (list T) vdiv vzero vone A)
+    | 2 => C09_Ok (c09_g_invert2 (list T) vsub vmul vdiv vneg vzero vone A)
+    | 3 => C09_Ok (c09_g_invert3 (list T) vadd vsub vmul vdiv vneg vzero vone A)
+    | _ => c09_v_invert T U sub mul div absr gt nz zero one mone W doPivoting n A
+    end.
+End C09_Full.
+
 (* the per-lane swaps of luDecomposition / Elim::swap / invert as the literal loops over single lanes of single entries, e.g.
    for j: for l: swap(lane(l, A[i][j]), lane(l, A[lane(l, imax)][j]));  C09_Proofs_Swap.v shows that they compute the gathers
    c09_v_swaprows, c09_v_swapvec, c09_v_unperm_step used above *)
@@ -664,4 +854,33 @@ Section C09_SwapLoops.
     fold_left (fun M l => let p := nth l pv 0 in
                           if i =? p then M
                           else fold_left (fun M j => c09_swap_cols_cell n M j p i l) (seq 0 n) M) (seq 0 W) M.
+  Fixpoint c09_v_unperm_loops (n : nat) (piv : list (list nat)) (cols : list nat) (M : list (list (list T))) : list (list (list T)) :=
+    match cols with
+    | [] => M
+    | i :: cols' => c09_v_unperm_loops n piv cols' (c09_v_unperm_step_loops n M i (nth i piv []))
+    end.
 End C09_SwapLoops.
+
+(* first half of the loop body of luDecomposition with the swaps written as the literal loops *)
+Section C09_LoopsStep.
+  Variables T U : Type.
+  Variable mul : T -> T -> T.
+  Variable absr : T -> U.
+  Variable gt : U -> U -> bool.
+  Variable nz : U -> bool.
+  Variables zero one mone : T.
+  Variable W : nat.
+  Definition c09_v_pivot_step_loops (doPivoting : bool) (n i : nat) (st : c09_vst T) : c09_vst T :=
+    let A := c09_vA T st in
+    let pivmax0 := c09_vmap W zero absr (c09_vget T zero W A i i) in
+    if doPivoting then
+      let pm := c09_v_pivsearch T U absr gt zero W A i (seq (S i) (n - S i)) pivmax0 (c09_vbcast W i) in
+      let imax := snd pm in
+      let same := c09_vmap2 W 0 0 Nat.eqb (c09_vbcast W i) imax in
+      C09_VSt T (c09_v_swaprows_loops T zero W n A i imax)
+              (c09_v_swapvec_loops T zero W n (c09_vrhs T st) i imax)
+              (c09_tab n (fun r => if r =? i then c09_vcond W 0 same (nth i (c09_vpiv T st) []) imax else nth r (c09_vpiv T st) []))
+              (c09_vmul T mul zero W (c09_vsign T st) (c09_vcond W zero same (c09_vbcast W one) (c09_vbcast W mone)))
+              (c09_vmap2 W false false andb (c09_vok T st) (c09_vmap W (c09_dU T U absr zero) nz (fst pm)))
+    else c09_v_pivot_step T U mul absr gt nz zero one mone W doPivoting n i st.
+End C09_LoopsStep.
